@@ -207,8 +207,14 @@ pub extern "sysv64" fn memory_read_byte(areas: *const MemoryAreas, addr: u16) ->
     return memory_areas.video_ram[offset];
   }
   if addr < 0xc000 { // Cart RAM
+    let ram_size = memory_areas.cart_ram.len();
+    if ram_size == 0 {
+      // no RAM on the cartridge, the bus floats high
+      return 0xff;
+    }
     let offset = addr as usize & 0x1fff;
-    return memory_areas.cart_ram[0x2000 * memory_areas.cart_state.get_ram_bank() + offset];
+    // RAM smaller than the 8KB window is mirrored
+    return memory_areas.cart_ram[(0x2000 * memory_areas.cart_state.get_ram_bank() + offset) % ram_size];
   }
   if addr < 0xd000 { // Work RAM Bank 0
     let offset = addr as usize & 0xfff;
@@ -255,8 +261,13 @@ pub extern "sysv64" fn memory_write_byte(areas: *mut MemoryAreas, addr: u16, val
     return;
   }
   if addr < 0xc000 { // Cart RAM
+    let ram_size = memory_areas.cart_ram.len();
+    if ram_size == 0 {
+      return;
+    }
     let offset = addr as usize & 0x1fff;
-    memory_areas.cart_ram[0x2000 * memory_areas.cart_state.get_ram_bank() + offset] = value;
+    let index = (0x2000 * memory_areas.cart_state.get_ram_bank() + offset) % ram_size;
+    memory_areas.cart_ram[index] = value;
     return;
   }
   if addr < 0xd000 { // Work RAM Bank 0
